@@ -10,6 +10,18 @@
 
 #include "IO/ProgramOptions.hpp"
 
+#include <array>
+#include <utility>
+
+namespace {
+/// legacy option names (config files only) and the current names they stand for
+const std::array<std::pair<const char*,const char*>,3> option_aliases {{
+    {"RFVoltage","AcceleratingVoltage"},
+    {"SyncFreq","SynchrotronFrequency"},
+    {"steps","StepsPerTs"}
+}};
+} // namespace
+
 vfps::ProgramOptions::ProgramOptions() :
     _configfile("default.cfg"),
     I_b({3e-3f}),
@@ -281,14 +293,11 @@ vfps::ProgramOptions::ProgramOptions() :
             "compatibility (ignored)")
     ;
     _compatopts_alias.add_options()
-        ("RFVoltage", po::value<decltype(V_RF)>(
-             &V_RF),
+        ("RFVoltage", po::value<decltype(V_RF)>(),
             "compatibility naming for AcceleratingVoltage")
-        ("SyncFreq", po::value<decltype(f_s)>(
-             &f_s),
+        ("SyncFreq", po::value<decltype(f_s)>(),
             "(compatibility naming for SynchrotronFrequency)")
-        ("steps", po::value<decltype(steps_per_Ts)>(
-             &steps_per_Ts),
+        ("steps", po::value<decltype(steps_per_Ts)>(),
             "(compatibility naming for StepsPerTs)")
     ;
     _compatopts.add(_compatopts_ignore);
@@ -361,10 +370,16 @@ bool vfps::ProgramOptions::parse(int ac, char** av)
                                      + _configfile + "\".";
                 Display::printText(message);
                 store(parse_config_file(ifs, _cfgfileopts), _vm);
-                notify(_vm);
-                if(_vm.count("SyncFreq")) {
-                    _vm.at("SynchrotronFrequency").value()
-                            = _vm["SyncFreq"].value();
+                /* A legacy name acts like the current name: its value is
+                 * used unless the current name was given explicitly
+                 * (on the command line or in the config file).
+                 */
+                for (const auto& alias : option_aliases) {
+                    if (_vm.count(alias.first)
+                        && _vm[alias.second].defaulted()) {
+                        _vm.at(alias.second).value()
+                                = _vm[alias.first].value();
+                    }
                 }
                 notify(_vm);
             }
